@@ -111,10 +111,11 @@ type Contracts struct {
 	Writers []*WritersSpec
 	Ghosts  map[string]*GhostVar
 	Files   []string
+	PurePkgs map[string]bool // packages whose functions are assumed to assign nothing (logging, formatting)
 }
 
 func NewContracts() *Contracts {
-	return &Contracts{Funcs: map[string]*FuncContract{}, Specs: map[string]*SpecFunc{}, Ghosts: map[string]*GhostVar{}}
+	return &Contracts{Funcs: map[string]*FuncContract{}, Specs: map[string]*SpecFunc{}, Ghosts: map[string]*GhostVar{}, PurePkgs: map[string]bool{}}
 }
 
 // rewriteSpec turns spec-only syntax into parseable Go:
@@ -540,6 +541,9 @@ func (cs *Contracts) LoadContractFile(file, pkgPath string) error {
 				return fmt.Errorf("%s:%d: ghost NAME SORT", file, rl.line)
 			}
 			cs.Ghosts[fs[0]] = &GhostVar{Name: fs[0], Sort: fs[1]}
+		case "purepkg":
+			cs.PurePkgs[strings.TrimSpace(rest)] = true
+			cur, curLemma, curWriters = nil, nil, nil
 		case "writers":
 			// writers Type.field: f1, f2
 			i := strings.Index(rest, ":")
